@@ -30,7 +30,7 @@ def main():
         spec = json.load(f)
     harness.ensure_deps()
     import os
-    cov = _linecov_start() if os.environ.get('VMON_LINECOV') else None
+    cov = _linecov_start() if not os.environ.get('VMON_NO_LINECOV') else None
     harness.import_parso()
     mod = importlib.import_module('vmon.props.' + pid.lower())
     ctx = harness.Ctx(pid, spec)
@@ -45,8 +45,11 @@ def main():
         traceback.print_exc()
         rc = 3
     with open(outf, 'w') as f:
-        json.dump(ctx.dump(), f)
-    if cov is not None:
+        d = ctx.dump()
+        if cov is not None:
+            d['linecov'] = sorted(cov)
+        json.dump(d, f)
+    if cov is not None and os.environ.get('VMON_LINECOV'):
         with open(os.path.join(os.environ['VMON_LINECOV'], 'cov-%s-%d.json' % (pid, os.getpid())), 'w') as f:
             json.dump(sorted(cov), f)
     sys.exit(rc)
